@@ -252,19 +252,28 @@ Finish == /\ pc = "done"
           /\ lbl' = [a |-> "Finish", n |-> n, cfg |-> req, final |-> Final(rw), outcome |-> Outcome,
                      pooled |-> Cardinality(pool)]
 
+\* between two requests only the pool and the request index are carried over: the server is idle (one state per pool
+\* content and index, so that the next request is chosen once per such state and not once per finished request)
+IdleCfg == [status |-> 0, ctype |-> "default", eh |-> "unset", stream |-> FALSE, k |-> 0, fail |-> FALSE, ecls |-> "none"]
 NextRequest == /\ pc = "finished" /\ n < MaxReq
                /\ n' = n + 1
-               /\ req' \in Configs
-               /\ pc' = "start"
+               /\ req' = IdleCfg
+               /\ pc' = "idle"
                /\ rw' = FreshRW /\ buf' = <<>> /\ i' = 0 /\ rerr' = FALSE
                /\ UNCHANGED pool
                /\ Step("NextRequest")
+
+StartRequest == /\ pc = "idle"
+                /\ req' \in Configs
+                /\ pc' = "start"
+                /\ UNCHANGED <<rw, buf, i, rerr, pool, n>>
+                /\ Step("StartRequest")
 
 Next == \/ Dispatch
         \/ BGetBuffer \/ BRenderChunk \/ BRenderReturn \/ BErrSetCT \/ BErrHandler \/ BErrDefault
         \/ BOkSetCT \/ BOkStatus \/ BOkWrite \/ BRelease
         \/ SSetCT \/ SStatus \/ SRenderChunk \/ SRenderReturn \/ SErrSetCT \/ SErrHandler \/ SErrDefault
-        \/ Finish \/ NextRequest
+        \/ Finish \/ NextRequest \/ StartRequest
 
 Spec == Init /\ [][Next]_vars
 
@@ -304,7 +313,7 @@ AbortedSendsNothing ==
 
 \* the buffered / streamed decision depends on the streaming option only, whatever the content type
 StreamPCs == {"s_setct", "s_status", "s_render", "s_err_default", "s_err_setct", "s_err_eh"}
-StreamedOnlyIfConfigured == (pc \in StreamPCs) <=> (req.stream /\ pc \notin {"start", "done", "finished"})
+StreamedOnlyIfConfigured == (pc \in StreamPCs) <=> (req.stream /\ pc \notin {"start", "done", "finished", "idle"})
 
 \* the mechanism: the ResponseWriter is untouched until the component has returned
 UntouchedWhileRendering == (~req.stream /\ pc \in {"b_get", "b_render"}) => rw = FreshRW
